@@ -15,6 +15,7 @@ const (
 	nDone    nativeStatus = iota // result computed
 	nBlocked                     // thread blocked; the call instruction is re-executed later
 	nPending                     // the native arranged its own continuation
+	nDecline                     // the native does not apply to these arguments: execute the real SSA body
 )
 
 type nativeFn func(x *Exec, t *Thread, args []Value, call *callCtx) (Value, nativeStatus)
@@ -91,9 +92,10 @@ func (x *Exec) invoke(t *Thread, fnv Value, args []Value, onRet func(Value) (Val
 			switch st {
 			case nDone:
 				x.completeNative(t, ret, onRet, discard)
+				return
 			case nBlocked, nPending:
+				return
 			}
-			return
 		}
 		target := fn.Fn
 		if rep := x.P.replacement(fn.Fn, name); rep != nil {
